@@ -96,11 +96,41 @@ CHECKS = {
                "and Fault / Resumed / Abandon indications, with prompts and suspend/resume at every point.", "DESIGN.md 6.20"),
 }
 
-NOT_YET = {
-    "C05": "codec round trip: the TLA+ wire-layout specification and its binding are still under construction in this session; not claimed yet",
-    "C06": "decoder totality / canonicality: the TLA+ decoder-arithmetic specification and its binding are still under construction; not claimed yet",
-    "C15": "CRC rejection: the TLA+ CRC specification and its binding are still under construction; not claimed yet",
-}
+WIRE_NOTE = ("Trusted: TLC, the TLA+ value parser, the harness instantiation of shapes / templates (harness/src/bin/wire.rs), catch_unwind as the observer of panics "
+             "(harness built with overflow checks and debug assertions). Continuous field values are seeded samples; the discrete structure is enumerated exhaustively.")
+CHECKS.update({
+    "C05": dict(
+        engine="tlc-wire", category="model_checking",
+        technique="TLA+ specifications Wire.tla (header bit layout, framing, data-field length per PDU shape) and UserOps.tla (field templates of the 26 reserved user "
+                  "operations and the status report) enumerated and law-checked by TLC; every shape / template instantiated on the real codec and compared with the specification",
+        text="TLC enumerates the discrete shape space of every PDU kind (flags, id widths 1/2/4/8, file-size flag, CRC, TLV kinds, counts, boundary lengths) and of every user "
+             "operation (every value of every packed field), checks the layout laws (LengthsFit, HeaderRoundTrip, NibRoundTrip, OctetsOk) and prints each shape with its predicted "
+             "lengths / header octets / field template. The harness builds a real value (or the octets of the template) per shape and demands encoded_len = |encode| = the "
+             "specified length, header octets = the specified ones, decode(encode(x)) = x and encode(decode(w)) = w. Exhaustive over the discrete structure, sampled over the "
+             "contents of continuous fields.",
+        design_ref="DESIGN.md 6.5", note=WIRE_NOTE),
+    "C06": dict(
+        engine="tlc-wire", category="model_checking",
+        technique="TLA+ decoder-arithmetic model in Wire.tla (HeaderDecode / IdDecode with explicit machine ranges) checked by TLC over every first octet x boundary length / "
+                  "width octets x bytes available; the same patterns, every truncation and single-octet mutations of every shape's encoding replayed into the real decoders",
+        text="TLC checks ArithInRange / IdInRange: no pattern of the attacker-controlled octets makes the decoder's arithmetic leave its machine types (as repaired), and prints the "
+             "boundary patterns with the layout's verdict; the harness feeds each pattern, every truncation of every shape's encoding and 5 mutations per sampled position to "
+             "PDU::decode, VariableID::decode, UserOperation::decode and Report::decode under catch_unwind: no panic, truncations rejected, and whatever is accepted re-encodes "
+             "(length recomputed) and decodes to itself. Structured neighbourhood of valid encodings plus boundary values; not arbitrary byte strings.",
+        design_ref="DESIGN.md 6.6", note=WIRE_NOTE + " Allocation bound: the only allocation sized by input is the data field (u16 length) and id / LV fields (u8 length): by the model <= 64 KiB."),
+    "C15": dict(
+        engine="tlc-wire", category="model_checking",
+        technique="TLA+ specification Crc.tla (CRC-16/IBM-3740 bit by bit; detection lemma for single, double, odd and burst errors model-checked by TLC on bounded frames); CRC "
+                  "values recorded from the real encoder validated by TLC (CrcTrace.tla); every error pattern of the class applied to real encodings and fed to PDU::decode",
+        text="TLC checks on frames of L+2 octets that no single-bit, double-bit (within the window), triple-bit or burst (<= 16) error pattern leaves the CRC unchanged, and judges "
+             "the CRC the real encoder appended to short PDUs against the specification's value. For every CRC shape of Wire.tla the harness flips every single bit after the 4 "
+             "fixed octets, every pair within a 32-bit window, bursts of 2..16 bits and seeded odd patterns, and demands that PDU::decode rejects the datagram or returns the "
+             "original PDU (spare bits only); the unaltered datagram must be accepted.",
+        design_ref="DESIGN.md 6.15", note=WIRE_NOTE + " The algebraic detection guarantee beyond the bounded frames is a property of the polynomial, not decided by TLC; on real "
+                                                      "encodings the patterns are enumerated directly."),
+})
+
+NOT_YET = {}
 
 
 def hook_commits():
